@@ -69,8 +69,9 @@ type comp struct {
 	mu       sync.Mutex
 	entries  []entry
 	down     bool
-	indexing bool // run the real index workers instead of draining the tasks
-	gray     bool // the meta file holds a length field whose allocation outcome depends on the machine: history abandoned
+	failure  string // how the last start-up failed: "panic" or "error" (Replay returned an error)
+	indexing bool   // run the real index workers instead of draining the tasks
+	gray     bool   // the meta file holds a length field whose allocation outcome depends on the machine: history abandoned
 	limiter  *disk.ReadLimiter
 }
 
@@ -91,10 +92,8 @@ func (c *comp) docsPath() string { return c.base + ".docs" }
 func (c *comp) metaPath() string { return c.base + ".meta" }
 
 func (c *comp) abandon() {
-	if c.a != nil {
-		frac.VerifAbandon(c.a)
-		c.a = nil
-	}
+	// first let the indexer finish the tasks it was handed (a Replay that gave up early leaves some in flight),
+	// only then drop the fraction's token list and files
 	if c.ai != nil {
 		if c.indexing {
 			c.ai.Stop()
@@ -103,6 +102,10 @@ func (c *comp) abandon() {
 			<-c.drained
 		}
 		c.ai = nil
+	}
+	if c.a != nil {
+		frac.VerifAbandon(c.a)
+		c.a = nil
 	}
 }
 
@@ -124,15 +127,15 @@ func (c *comp) restart() {
 		c.startDrain()
 	}
 	c.a = frac.NewActive(c.base, c.ai, c.limiter, cache.NewCache[[]byte](nil, nil), cache.NewCache[[]byte](nil, nil), &frac.Config{})
-	c.down = false
+	c.down, c.failure = false, ""
 	func() {
 		defer func() {
 			if r := recover(); r != nil {
-				c.down = true
+				c.down, c.failure = true, "panic"
 			}
 		}()
 		if err := c.a.Replay(context.Background()); err != nil {
-			c.down = true
+			c.down, c.failure = true, "error" // the store refuses to start: an observation, compared with the model like a panic
 		}
 	}()
 }
@@ -203,7 +206,7 @@ func (c *comp) observe() string {
 		return ""
 	}
 	if c.down {
-		return "panic"
+		return c.failure
 	}
 	docs, _ := os.ReadFile(c.docsPath())
 	meta, _ := os.ReadFile(c.metaPath())
@@ -353,7 +356,7 @@ func (c *comp) observeIndex(ids []seq.ID, toks []string) string {
 		return ""
 	}
 	if c.down {
-		return "panic"
+		return c.failure
 	}
 	ctx := context.Background()
 	var pos, fet, sr []string
@@ -653,7 +656,7 @@ func chanReplay(o vh.Opts, rng *vh.RNG) *vh.Channel {
 		must(os.WriteFile(c.docsPath(), nil, 0o666))
 		must(os.WriteFile(c.metaPath(), file, 0o666))
 		c.restart()
-		impl := "panic"
+		impl := c.failure
 		sum := new(big.Int)
 		nEntries := 0
 		if !c.down {
@@ -813,6 +816,12 @@ func childMain(args []string) {
 		fm.WaitIdle()
 		say("ACK %d", b)
 	}
+	if len(args) > 4 && args[4] != "0+0" {
+		var a, b int
+		_, err := fmt.Sscanf(args[4], "%d+%d", &a, &b)
+		must(err)
+		childConcurrent(fm, a, b, say)
+	}
 	if args[3] != "-" {
 		var b, point int
 		_, err := fmt.Sscanf(args[3], "%d:%d", &b, &point)
@@ -850,7 +859,83 @@ func childMain(args []string) {
 	os.Exit(0)
 }
 
+// childConcurrent appends bulks a and b from two goroutines and steers them, through the aw.* points, towards the
+// interleaving  docs(a) docs(b) meta(b) meta(a):  a is held at aw.docs (its docs block written, its meta block not)
+// until b has finished its write (aw.end) - or until b cannot get there: b returned, or b is parked on a lock
+// inside ActiveWriter.Write (the goroutine dump shows it), which is what happens when the writes are serialised.
+// No time-outs: b always reaches one of these states.
+func childConcurrent(fm *fracmanager.FracManager, a, b int, say func(string, ...any)) {
+	da, ma := bulkBlocks(a)
+	db, mb := bulkBlocks(b)
+	if len(da) == len(db) {
+		say("CONCURRENT-SKIPPED equal docs block lengths")
+		return
+	}
+	var aAtDocs, release = make(chan struct{}), make(chan struct{})
+	var bEnd, bReturned atomic.Bool
+	verifhook.Set(func(name, _ string, args []int64) {
+		switch {
+		case name == "aw.docs" && args[1] == int64(len(da)):
+			close(aAtDocs)
+			<-release
+		case name == "aw.end" && args[1] == int64(len(db)):
+			bEnd.Store(true)
+		}
+	})
+	ctx := context.Background()
+	var wg sync.WaitGroup
+	var errA, errB error
+	wg.Add(1)
+	go func() { defer wg.Done(); errA = fm.Append(ctx, da, ma) }()
+	<-aAtDocs
+	wg.Add(1)
+	go func() { defer wg.Done(); errB = fm.Append(ctx, db, mb); bReturned.Store(true) }()
+	how := ""
+	for how == "" {
+		switch {
+		case bEnd.Load():
+			how = "b-wrote-inside-a"
+		case bReturned.Load():
+			how = "b-returned"
+		case parkedOnWriterLock():
+			how = "b-waits-for-a"
+		default:
+			runtime.Gosched()
+			time.Sleep(200 * time.Microsecond)
+		}
+	}
+	close(release)
+	wg.Wait()
+	verifhook.Set(nil)
+	fm.WaitIdle()
+	say("CONCURRENT %s", how)
+	if errA == nil {
+		say("ACK %d", a)
+	}
+	if errB == nil {
+		say("ACK %d", b)
+	}
+}
+
+// parkedOnWriterLock: some goroutine inside ActiveWriter.Write is waiting for a lock
+func parkedOnWriterLock() bool {
+	buf := make([]byte, 1<<20)
+	buf = buf[:runtime.Stack(buf, true)]
+	for _, g := range strings.Split(string(buf), "\n\n") {
+		nl := strings.IndexByte(g, '\n')
+		if nl < 0 {
+			continue
+		}
+		head, body := g[:nl], g[nl:]
+		if (strings.Contains(head, "Lock") || strings.Contains(head, "semacquire")) && strings.Contains(body, "frac.(*ActiveWriter).Write") {
+			return true
+		}
+	}
+	return false
+}
+
 type round struct {
+	par    [2]int // two bulks appended concurrently (0 = none), see childConcurrent
 	ingest []int
 	crash  int // bulk id or -1
 	point  int // 1..7 (pointNames)
@@ -866,7 +951,11 @@ func (s scenario) String() string {
 		if r.crash >= 0 {
 			c = fmt.Sprintf("%d@%d/%d", r.crash, r.point, r.k)
 		}
-		parts = append(parts, fmt.Sprintf("i=%s,c=%s", strings.ReplaceAll(vh.JoinInts(r.ingest), ",", "+"), c))
+		p := ""
+		if r.par[0] > 0 {
+			p = fmt.Sprintf(",p=%d+%d", r.par[0], r.par[1])
+		}
+		parts = append(parts, fmt.Sprintf("i=%s,c=%s%s", strings.ReplaceAll(vh.JoinInts(r.ingest), ",", "+"), c, p))
 	}
 	return "hist " + strings.Join(parts, " ")
 }
@@ -883,6 +972,10 @@ func parseScenario(line string) (scenario, error) {
 			switch {
 			case strings.HasPrefix(kv, "i="):
 				r.ingest = parseInts(strings.ReplaceAll(kv[2:], "+", ","))
+			case strings.HasPrefix(kv, "p="):
+				if _, err := fmt.Sscanf(kv[2:], "%d+%d", &r.par[0], &r.par[1]); err != nil {
+					return s, err
+				}
 			case strings.HasPrefix(kv, "c=") && kv != "c=-":
 				if _, err := fmt.Sscanf(kv[2:], "%d@%d/%d", &r.crash, &r.point, &r.k); err != nil {
 					return s, err
@@ -901,12 +994,12 @@ type childResult struct {
 	stderr string
 }
 
-func runChild(dir string, verify, ingest []int, crash string) childResult {
+func runChild(dir string, verify, ingest []int, crash string, par [2]int) childResult {
 	self, err := os.Executable()
 	must(err)
 	ctx, cancel := context.WithTimeout(context.Background(), 60*time.Second)
 	defer cancel()
-	cmd := exec.CommandContext(ctx, self, "child", dir, vh.JoinInts(verify), vh.JoinInts(ingest), crash)
+	cmd := exec.CommandContext(ctx, self, "child", dir, vh.JoinInts(verify), vh.JoinInts(ingest), crash, fmt.Sprintf("%d+%d", par[0], par[1]))
 	var so, se bytes.Buffer
 	cmd.Stdout, cmd.Stderr = &so, &se
 	err = cmd.Run()
@@ -967,10 +1060,22 @@ func runScenario(s scenario) (findings []finding, tagsOut []string, obs sysObs) 
 	check := func(res childResult, phase string) bool {
 		cls := debris
 		if cls == "" {
+			cls = pendingDebris // a crash left debris and nothing was ingested since
+		}
+		if cls == "" {
 			cls = "no-debris"
 		}
 		if !res.up {
-			findings = append(findings, finding{"startup-fails/" + cls, fmt.Sprintf("%s: the store does not come up (exit %d): %s", phase, res.exit, lastLine(res.stderr))})
+			why := lastLine(res.stderr)
+			for _, l := range res.lines {
+				if strings.HasPrefix(l, "LOADERR") { // FracManager.Load returned an error
+					why = l
+				}
+			}
+			if len(why) > 240 {
+				why = why[:240]
+			}
+			findings = append(findings, finding{"startup-fails/" + cls, fmt.Sprintf("%s: the store does not come up (exit %d): %s", phase, res.exit, why)})
 			return false
 		}
 		for _, l := range res.lines {
@@ -1015,8 +1120,17 @@ func runScenario(s scenario) (findings []finding, tagsOut []string, obs sysObs) 
 		if pendingDebris != "" && (len(r.ingest) > 0 || r.crash >= 0) && debris == "" {
 			debris = pendingDebris
 		}
-		res := runChild(dir, known(), r.ingest, crash)
+		if r.par[0] > 0 {
+			tagsOut = append(tagsOut, "concurrent-bulks")
+			if debris == "" && pendingDebris == "" {
+				debris = "concurrent-bulks"
+			}
+		}
+		res := runChild(dir, known(), r.ingest, crash, r.par)
 		for _, l := range res.lines {
+			if strings.HasPrefix(l, "CONCURRENT") {
+				tagsOut = append(tagsOut, strings.ReplaceAll(l, " ", ":"))
+			}
 			if strings.HasPrefix(l, "ACK ") {
 				b, _ := strconv.Atoi(l[4:])
 				acked = append(acked, b)
@@ -1067,7 +1181,7 @@ func runScenario(s scenario) (findings []finding, tagsOut []string, obs sysObs) 
 			}
 		}
 	}
-	res := runChild(dir, known(), nil, "-")
+	res := runChild(dir, known(), nil, "-", [2]int{})
 	obs.up = check(res, "final restart")
 	obs.bulks = known()
 	for _, l := range res.lines {
@@ -1095,6 +1209,12 @@ func modelHistory(s scenario) string {
 		for _, b := range r.ingest {
 			d, m := bulkBlocks(b)
 			evs = append(evs, event{kind: 'B', d: d, m: m}.String())
+		}
+		if r.par[0] > 0 { // bulks of one fraction are written one at a time: any order of two acknowledged bulks is a history
+			for _, b := range r.par {
+				d, m := bulkBlocks(b)
+				evs = append(evs, event{kind: 'B', d: d, m: m}.String())
+			}
 		}
 		if r.crash < 0 {
 			evs = append(evs, "R")
@@ -1141,7 +1261,10 @@ func lastLine(s string) string {
 }
 
 func siteOf(class string) string {
-	if strings.HasSuffix(class, "/no-debris") {
+	if strings.HasSuffix(class, "/concurrent-bulks") {
+		return "frac/active_writer.go:Write"
+	}
+	if strings.HasSuffix(class, "/no-debris") && !strings.HasPrefix(class, "startup-fails") {
 		return "frac/active.go:Append" // no crash left anything behind: the write / index / fetch path itself
 	}
 	return "frac/active.go:Replay"
@@ -1167,6 +1290,13 @@ func oracleCrashRestart(o vh.Opts, rng *vh.RNG, rep *vh.Report, replayOps []stri
 			scenario{[]round{{ingest: []int{1}, crash: 2, point: 4, k: -1}, {ingest: []int{3}, crash: -1}}},
 			scenario{[]round{{ingest: []int{1}, crash: 2, point: 5, k: 40}, {ingest: []int{3}, crash: -1}}},
 			scenario{[]round{{crash: 1, point: 5, k: 40}, {ingest: []int{2}, crash: -1}}},
+			// two bulks appended concurrently, then restarts
+			scenario{[]round{{par: [2]int{1, 2}, crash: -1}, {crash: -1}}},
+			scenario{[]round{{ingest: []int{3}, par: [2]int{4, 5}, crash: -1}, {ingest: []int{6}, crash: -1}}},
+			scenario{[]round{{par: [2]int{8, 7}, crash: 9, point: 5, k: 10}, {ingest: []int{10}, crash: -1}}},
+			// torn meta tail with a complete header, restart only
+			scenario{[]round{{ingest: []int{1}, crash: 2, point: 5, k: 33}}},
+			scenario{[]round{{crash: 1, point: 5, k: 40}, {crash: -1}}},
 		)
 		// every crash point x torn length, followed by ingest and restart
 		ks := []int{0, 1, 32, 33, 34, -2, -1} // -2 = len-1, resolved below against a generous bound
@@ -1197,6 +1327,10 @@ func oracleCrashRestart(o vh.Opts, rng *vh.RNG, rep *vh.Report, replayOps []stri
 				for j, m := 0, rng.Intn(3); j < m; j++ {
 					rd.ingest = append(rd.ingest, next)
 					next++
+				}
+				if rng.Chance(1, 4) {
+					rd.par = [2]int{next, next + 1}
+					next += 2
 				}
 				if rng.Chance(2, 3) {
 					rd.crash, rd.point, rd.k = next, rng.Range(1, 7), -1
